@@ -120,7 +120,8 @@ func (c *C14Case) Run() string {
 	want := A.arr
 	ds := []int(dec.Shape())
 	if !eqInts(ds, want.Shape) {
-		if prod(ds) == prod(want.Shape) && tensor.Shape(ds).Eq(tensor.Shape(want.Shape)) || (prod(want.Shape) == 1 && prod(ds) == 1) {
+		// CSV has no notion of rank (it always reads a matrix); one-element tensors may come back as scalars
+		if (c.Format == "csv" && prod(ds) == prod(want.Shape) && tensor.Shape(ds).Eq(tensor.Shape(want.Shape))) || (prod(want.Shape) == 1 && prod(ds) == 1) {
 			want = Arr{DT: want.DT, Shape: ds, E: want.E}
 		} else {
 			return desc + fmt.Sprintf(": decoded shape %v, expected %v", ds, want.Shape)
@@ -188,7 +189,7 @@ func (c *C14Case) Run() string {
 	return ""
 }
 
-var c14Layouts = []string{"contig", "cmraw", "cmconv", "lazyT", "sliced", "stepsliced"}
+var c14Layouts = []string{"contig", "cmraw", "cmconv", "lazyT", "sliced", "stepsliced", "physT"}
 
 func genC14(rt *rapid.T, format string, d DT, lk string, masked bool) *C14Case {
 	var shape []int
